@@ -11,9 +11,12 @@ fn run_line(line: &str) -> String {
     let (e, text) = line.split_once(' ').unwrap();
     let spec = parse_msg(text);
     let bytes = if e == "LE" { encode_real(&spec) } else { encode_be(&spec) };
-    let dec = match RtpsMessageRead::try_from(&bytes[..]) {
-        Ok(m) => fmt_message(&m),
-        Err(x) => format!("ERR {}", err_code(&x)),
+    // a panic of the decoder (possible when a truncated length field makes payload bytes look like
+    // submessages) is an output like any other: `OK <bytes> | PANIC`
+    let dec = match std::panic::catch_unwind(|| RtpsMessageRead::try_from(&bytes[..])) {
+        Ok(Ok(m)) => fmt_message(&m),
+        Ok(Err(x)) => format!("ERR {}", err_code(&x)),
+        Err(_) => "PANIC".to_string(),
     };
     format!("OK {} | {}", bx_encode(&bytes), dec)
 }
